@@ -13,7 +13,8 @@ ASSUMPTIONS = [
     "Expr += term adds the term's value; Expr(0, **assumptions) is the empty sum (sympy Add homomorphism)",
     "exchange of summation: if every bucket is the sum of the terms whose computed key equals the bucket's key, the buckets sum to the expression (math)",
     "abstract view of a term: Term.deltas / Term.tensors as short lists (0-2 objects) of objects with symbolic name / space / spin / exponent (<= 2) / index tuples; Term.target an arbitrary index set",
-    "the computed key is compared with an independent key computation only in the bounded stand-in sorters.keys; Term.symmetry, Permutation/PermutationProduct, exploit_perm_sym and filter_tensor are only covered by bounded stand-ins (symmetry.true, exploit_perm_sym.lossless, filter_tensor.predicate)",
+    "the computed key is compared with an independent key computation only in the bounded stand-in sorters.keys; Permutation/PermutationProduct, exploit_perm_sym and filter_tensor are only covered by bounded stand-ins (symmetry.true, exploit_perm_sym.lossless, filter_tensor.predicate)",
+    "Term.symmetry (soundness): sympy's S.Zero as result of term +- permuted term implies that the two values cancel for every assignment (the converse is not assumed); Container.permute (contract under C08) returns the term with the transpositions of the candidate applied; the candidate enumeration (itertools combinations / permutations, the nested helpers permute_str and get_perms) runs on opaque values - completeness of the enumeration is not claimed; Obj.symmetry delegates to it (contract above)",
 ]
 TRUSTED = []
 TermS = z3.DeclareSort("TermS")
@@ -303,3 +304,246 @@ class ObjSymmetry(Contract):
                  == {"real": vc.ghost["_real"], "sym_tensors": "SYM", "antisym_tensors": "ANTI"}),
                 ("only-the-target-indices-of-the-probe-are-permuted",
                  ok and result.f["args"] == () and result.f["flags"] == {"only_target": True})]
+
+
+# --- Term.symmetry: every reported permutation is a true symmetry ---------------------------------
+# Soundness only (which permutations are tried is irrelevant for it): a permutation product is
+# stored with -1 / +1 only if  term + permuted term  /  term - permuted term  is sympy's zero, i.e. the
+# permuted term has the value -/+ of the term for every assignment.  The enumeration of the candidate
+# permutations (first half of the function) is executed on opaque values.
+TS = "adcgen.expr_container:Term.symmetry"
+PermSort = z3.DeclareSort("PermProduct")
+PERM_AT = z3.Function("candidate", z3.IntSort(), PermSort)
+PVAL = z3.Function("value_of_the_permuted_term", PermSort, z3.RealSort())
+VAL0 = z3.Real("value_of_the_term")
+PermB = z3.ArraySort(PermSort, z3.BoolSort())
+PermI = z3.ArraySort(PermSort, z3.IntSort())
+
+
+def _symv(vc, val):
+    """sympy expression with value `val` (arbitrary fixed assignment); `zero`: it is sympy's S.Zero,
+    which implies that the value vanishes"""
+    z = vc.fresh_bool("is_S_Zero")
+    vc.assume(z3.Implies(z, val == 0))
+    return Struct("SymV", val=val, zero=z)
+
+
+def _ts_install(vc):
+    from pyvc.builtins import SymIter
+    from spec.exprval import ZERO
+    C.EXTERNALS["sympy.S.Zero"] = ZERO
+
+    def arith(ip, opn, a, b):
+        if opn in ("Add", "Sub") and all(isinstance(x, Struct) and x.cls == "SymV" for x in (a, b)):
+            return _symv(ip.vc, a.f["val"] + b.f["val"] if opn == "Add" else a.f["val"] - b.f["val"])
+        raise Unsupported("arithmetic on an abstract sympy term")
+    C.STRUCT_ARITH["SymV"] = arith
+
+    def is_(ip, a, b):
+        x, o = (a, b) if isinstance(a, Struct) and a.cls == "SymV" else (b, a)
+        if isinstance(o, Struct) and o.f.get("singleton") == "Zero":
+            return x.f["zero"]
+        return a is b
+    C.STRUCT_IS["SymV"] = is_
+    C.STRUCT_ATTR[("SymV", "is_number")] = lambda ip, o: o.f.get("number", False)
+    C.STRUCT_ISINSTANCE["SymV"] = lambda ip, v, cls: v.f.get("nonsym", False)
+    # the term
+    for f in ("sympy", "contracted", "target", "idx"):
+        C.STRUCT_ATTR[("TermSelf", f)] = (lambda f: lambda ip, o: o.f[f])(f)
+    def permute(ip, o, a, k):
+        # Container.permute (contract under C08): the term with the given transpositions applied
+        if len(a) == 1 and not k and isinstance(a[0], tuple) and len(a[0]) == 2 and a[0][0] == "*":
+            a = [a[0][1]]       # permute(*perms): the transpositions of the product `perms`
+        if len(a) == 1 and not k and isinstance(a[0], Struct) and a[0].cls in ("PermV", "PermsTuple") \
+                and a[0].f["id"] is not None:
+            return Struct("PermutedTerm", of=a[0].f["id"])
+        raise Unsupported(f"permute{a} of other than the transpositions of one candidate")
+    C.STRUCT_METHODS[("TermSelf", "permute")] = permute
+    C.STRUCT_ATTR[("PermutedTerm", "sympy")] = lambda ip, o: _symv(ip.vc, PVAL(o.f["of"]))
+    # opaque index lists
+    C.STRUCT_LEN["IdxList"] = lambda ip, o: o.f["n"]
+    C.STRUCT_SYMITER["IdxList"] = lambda ip, o: SymIter(
+        "indices", o, o.f["n"], lambda ip_, k: Struct("IdxTok", key=Struct("SpaceSpinKey")))
+    C.STRUCT_ATTR[("IdxTok", "space_and_spin")] = lambda ip, o: o.f["key"]
+    C.STRUCT_ATTR[("IdxTok", "name")] = lambda ip, o: Sym(ip.vc.fresh("index_name", z3.StringSort()))
+    C.SYMBOLIC_ITERABLES.add("IdxList")
+    # sorted_idx: {space_and_spin: [indices]}
+    C.STRUCT_CONTAINS["SortedIdx"] = lambda ip, o, x: ip.vc.fresh_bool("key_known")
+    C.STRUCT_STORE["SortedIdx"] = lambda ip, o, k, v: None
+    C.STRUCT_SUBSCRIPT["SortedIdx"] = lambda ip, o, k: Struct("OpaqueList")
+    C.STRUCT_METHODS[("OpaqueList", "append")] = lambda ip, o, a, k: None
+    C.STRUCT_METHODS[("SortedIdx", "values")] = lambda ip, o, a, k: Struct("IdxLists")
+    C.STRUCT_SYMITER["IdxLists"] = lambda ip, o: SymIter(
+        "index-lists", o, Sym(_fresh_nat(ip.vc, "n_spaces")),
+        lambda ip_, k: Struct("IdxList", n=Sym(_fresh_nat(ip_.vc, "n_indices_of_the_space"))))
+    # candidate enumeration
+    C.EXTERNALS["math.factorial"] = lambda ip, a, k: Sym(_fresh_nat(ip.vc, "factorial"))
+    C.EXTERNALS["itertools.chain.from_iterable"] = lambda ip, a, k: a[0]
+    C.STRUCT_SYMITER["CombsGen"] = lambda ip, o: SymIter(
+        "combinations", o, Sym(_fresh_nat(ip.vc, "n_combinations")), lambda ip_, k: Struct("PermsTuple", id=None))
+    C.STRUCT_ITER["PermsTuple"] = lambda ip, o: [Struct("PermV", id=o.f["id"])]
+    C.STRUCT_LEN["StrList"] = lambda ip, o: Sym(_fresh_nat(ip.vc, "n_strings"))
+    C.STRUCT_CONTAINS["StrList"] = lambda ip, o, x: ip.vc.fresh_bool("string_known")
+    C.STRUCT_METHODS[("StrList", "append")] = lambda ip, o, a, k: None
+    C.STRUCT_METHODS[("TempList", "append")] = lambda ip, o, a, k: None
+    C.STRUCT_METHODS[("SpacePerms", "append")] = lambda ip, o, a, k: None
+    C.STRUCT_ITER["SpacePerms"] = lambda ip, o: [Struct("TempList")]
+    C.STRUCT_SYMITER["PermsGen"] = lambda ip, o: SymIter(
+        "candidates", o, Sym(o.f["n"]), lambda ip_, k: Struct("PermsTuple", id=PERM_AT(term(k))))
+    # the result dict
+    def store(ip, o, key, v):
+        if not (isinstance(key, Struct) and key.cls == "PermsTuple" and key.f["id"] is not None):
+            raise Unsupported("symmetry[...] with another key")
+        o.f["dom"] = z3.Store(o.f["dom"], key.f["id"], True)
+        o.f["sgn"] = z3.Store(o.f["sgn"], key.f["id"], term(v))
+    C.STRUCT_STORE["SymDict"] = store
+
+
+def _fresh_nat(vc, name):
+    n = vc.fresh_int(name)
+    vc.assume(n >= 0)
+    return n
+
+
+def _sym_inv(d):
+    p = z3.Const("p!sym", PermSort)
+    return z3.ForAll([p], z3.Implies(d.f["dom"][p], z3.And(
+        z3.Or(d.f["sgn"][p] == 1, d.f["sgn"][p] == -1),
+        PVAL(p) == z3.ToReal(d.f["sgn"][p]) * VAL0)))
+
+
+def _as_symdict(v):
+    if isinstance(v, Struct) and v.cls == "SymDict":
+        return v
+    if isinstance(v, PDict) and not v.d:
+        return Struct("SymDict", dom=z3.K(PermSort, False), sgn=z3.K(PermSort, z3.IntVal(0)))
+    raise Unsupported("symmetry dictionary")
+
+
+class _TsSortLoop(LoopContract):
+    header = "indices"
+    modifies = ("s", "key", "sorted_idx")
+
+    def havoc(self, vc, frame, k, seq):
+        frame["sorted_idx"] = Struct("SortedIdx")
+        for nm in ("s", "key"):
+            frame.locals.pop(nm, None)
+
+    def invariant(self, vc, frame, k, seq):
+        v = frame["sorted_idx"]
+        if isinstance(v, PDict) and not v.d:
+            frame["sorted_idx"] = Struct("SortedIdx")
+        return []
+
+
+class _TsSpaceLoop(LoopContract):
+    header = "sorted_idx.values()"
+    modifies = ("idx_list", "max_n_perms", "idx_string", "permuted_str", "pairs", "combs", "temp", "perms",
+                "perm_str", "space_perms")
+
+    def havoc(self, vc, frame, k, seq):
+        frame["space_perms"] = Struct("SpacePerms")
+        for nm in ("idx_list", "max_n_perms", "idx_string", "permuted_str", "pairs", "combs", "temp", "perms",
+                   "perm_str"):
+            frame.locals.pop(nm, None)
+
+    def invariant(self, vc, frame, k, seq):
+        v = frame["space_perms"]
+        if isinstance(v, PList) and not v.items:
+            frame["space_perms"] = Struct("SpacePerms")
+        return []
+
+
+class _TsCombLoop(LoopContract):
+    header = "combs"
+    modifies = ("perms", "perm_str", "permuted_str", "temp")
+
+    def havoc(self, vc, frame, k, seq):
+        frame["permuted_str"], frame["temp"] = Struct("StrList"), Struct("TempList")
+        for nm in ("perms", "perm_str"):
+            frame.locals.pop(nm, None)
+
+    def invariant(self, vc, frame, k, seq):
+        for nm, cls in (("permuted_str", "StrList"), ("temp", "TempList")):
+            if isinstance(frame[nm], PList):
+                frame[nm] = Struct(cls)
+        return []
+
+
+class _TsTestLoop(LoopContract):
+    header = "get_perms(*space_perms)"
+    modifies = ("perms", "permuted", "symmetry")
+
+    def iter_spec(self, vc, frame, seq):
+        return [("runs-over-the-candidate-permutation-products", isinstance(seq.obj, Struct) and seq.obj.cls == "PermsGen")]
+
+    def havoc(self, vc, frame, k, seq):
+        frame["symmetry"] = Struct("SymDict", dom=vc.fresh("reported", PermB), sgn=vc.fresh("factor", PermI))
+        for nm in ("perms", "permuted"):
+            frame.locals.pop(nm, None)
+
+    def invariant(self, vc, frame, k, seq):
+        d = _as_symdict(frame["symmetry"])
+        frame["symmetry"] = d
+        return [("every-stored-permutation-maps-the-term-onto-its-stored-factor-times-itself", _sym_inv(d))]
+
+
+class _TsGetPerms(Contract):
+    key = TS + ".get_perms"
+    props = []
+    assumed = True
+    note = "nested generator: which permutation products are tried does not matter for soundness (arbitrary sequence)"
+
+    def bind(self, vc, args, kwargs, interp):
+        return {}
+
+    def apply(self, vc, a):
+        return Struct("PermsGen", n=_fresh_nat(vc, "n_candidates"))
+
+
+class _TsPermuteStr(Contract):
+    key = TS + ".permute_str"
+    props = []
+    assumed = True
+    note = "nested helper of the candidate enumeration (an arbitrary string)"
+
+    def bind(self, vc, args, kwargs, interp):
+        return {}
+
+    def apply(self, vc, a):
+        return Sym(vc.fresh("permuted_names", z3.StringSort()))
+
+
+register(_TsGetPerms)
+register(_TsPermuteStr)
+
+
+def _comp_names(ip, frame, node):
+    return PList([Sym(ip.vc.fresh("names_of_the_space", z3.StringSort()))])
+
+
+@register
+class TermSymmetry(Contract):
+    key = TS
+    props = ["C10"]
+    loops = {0: _TsSortLoop(), 1: _TsSpaceLoop(), 2: _TsCombLoop(), 3: _TsTestLoop()}
+    comprehensions = {"s.name for s in idx_list": _comp_names,
+                      "for pair in combinations(idx_list, 2)": lambda ip, frame, node: Struct("PairsList"),
+                      "permutations(pairs, n) for n in range": lambda ip, frame, node: Struct("CombsGen")}
+
+    def setup(self, vc):
+        _ts_install(vc)
+        kind = vc.choose(3, "term")     # tensors / number / single NonSymmetricTensor
+        me = Struct("TermSelf", sympy=Struct("SymV", val=VAL0, zero=z3.BoolVal(False), number=kind == 1, nonsym=kind == 2),
+                    contracted=Struct("IdxList", n=Sym(_fresh_nat(vc, "n_contracted"))),
+                    target=Struct("IdxList", n=Sym(_fresh_nat(vc, "n_target"))),
+                    idx=Struct("IdxList", n=Sym(_fresh_nat(vc, "n_idx"))))
+        return {"self": me, "only_contracted": vc.choose(2, "only_contracted") == 1,
+                "only_target": vc.choose(2, "only_target") == 1}
+
+    def raises(self, vc, a):
+        return [("Inputerror", a["only_contracted"] and a["only_target"])]
+
+    def post(self, vc, a, result):
+        d = _as_symdict(result)
+        return [("every-reported-permutation-maps-the-term-onto-plus-or-minus-itself-in-value", _sym_inv(d))]
